@@ -1,5 +1,6 @@
 CONFIG = dict(
-    coqfiles=["Props/C10.v", "Props/StoreCombined.v", "Props/C10W.v"],
+    sub=["C10W"],
+    coqfiles=["Props/C10.v", "Props/StoreCombined.v", "Props/C10W.v", "Props/C01W.v"],
     n_quick=1500, n_thorough=60000, workers_quick=8,
     rule="random store geometries (block size 16-64, sector 1/4/16, old 0-3, current 0-3, new 1-3, immutable and mutable growth, in-memory or block-device allocator with 1-3 spare blocks, "
          "flat keys with/without instance or hierarchical, validating CAS or raw read factory) x schedules of 15-45 (thorough: 20-100) atomic steps: uploads fed chunk by chunk through a gated source "
